@@ -99,6 +99,63 @@ func IntImpl(n int) string {
 	})
 }
 
+// integer ranges at other integer types (the loop variable has the type of n); values at the type's limits
+type Level uint8
+
+func IntTypedCases() [][3]string {
+	var out [][3]string
+	add := func(name, impl, native string) { out = append(out, [3]string{name, impl, native}) }
+	drain := func(next func() bool, cur func() string) string {
+		return safe(func() string {
+			var b []string
+			for next() {
+				b = append(b, cur())
+				if len(b) > 300 {
+					break
+				}
+			}
+			return strings.Join(b, " ")
+		})
+	}
+	for _, n := range []int8{-128, -1, 0, 1, 5, 127} {
+		it := seq.NewIntegerIter(n)
+		var b []string
+		for i := range n {
+			var j int8 = i
+			b = append(b, fmt.Sprint(j))
+		}
+		add(fmt.Sprintf("int8 %d", n), drain(it.MoveNext, func() string { var k int8 = it.Current().Key; return fmt.Sprint(k) }), strings.Join(b, " "))
+	}
+	for _, n := range []uint8{0, 1, 7, 255} {
+		it := seq.NewIntegerIter(n)
+		var b []string
+		for i := range n {
+			var j uint8 = i
+			b = append(b, fmt.Sprint(j))
+		}
+		add(fmt.Sprintf("uint8 %d", n), drain(it.MoveNext, func() string { var k uint8 = it.Current().Key; return fmt.Sprint(k) }), strings.Join(b, " "))
+	}
+	for _, n := range []uint64{0, 3} {
+		it := seq.NewIntegerIter(n)
+		var b []string
+		for i := range n {
+			var j uint64 = i
+			b = append(b, fmt.Sprint(j))
+		}
+		add(fmt.Sprintf("uint64 %d", n), drain(it.MoveNext, func() string { var k uint64 = it.Current().Key; return fmt.Sprint(k) }), strings.Join(b, " "))
+	}
+	for _, n := range []Level{0, 4} {
+		it := seq.NewIntegerIter(n)
+		var b []string
+		for i := range n {
+			var j Level = i
+			b = append(b, fmt.Sprint(j))
+		}
+		add(fmt.Sprintf("Level %d", n), drain(it.MoveNext, func() string { var k Level = it.Current().Key; return fmt.Sprint(k) }), strings.Join(b, " "))
+	}
+	return out
+}
+
 func IntNative(n int) string {
 	var b []string
 	for i := range n {
